@@ -173,7 +173,7 @@ func ruleConfirmCount() *Rule {
 					run(r)
 				}
 			}
-			out = append(out, freshCounter(p, id, "(*Raft).sendAppendEntriesToPeers", "(*Raft).sendAppendEntries", 2)...)
+			out = append(out, freshCounterMode(p, id, "(*Raft).sendAppendEntriesToPeers", "(*Raft).sendAppendEntries", 2, true)...)
 			out = append(out, counterNotForwarded(p, id, "(*Raft).sendAppendEntries", 2)...)
 			out = append(out, spawnOnlyForOthers(p, id, "(*Raft).sendAppendEntriesToPeers", root)...)
 			return out
